@@ -36,9 +36,18 @@ def fieldMapsOk : Bool := stubsOk && handlersOk
 end P9.Client
 
 namespace P9.Client
-/-- the fid pool's Get / Put sites, as (method, operation, argument) -/
+/-- **Where fids go back to the pool** (regenerated, by guard rather than by place): a fid obtained
+from `Get` in the same function is given back only in the error branch of the `sendRecv` that would
+have bound it (Tattach, Twalk, Twalkgetattr, Txattrwalk); a File's own fid only after a `sendRecv`
+that returned nil and that can carry nothing but Tclunk / Tremove (also through a helper: the
+literals at its call sites); there is no other `Put`; every `Get` has its failure path. -/
 def fidPoolSitesOk : Bool :=
-  Gen.fidPoolOps == [("Attach", "Get", ""), ("Attach", "Put", "id"), ("Close", "Put", "uint64(c.fid)"),
-    ("Remove", "Put", "uint64(c.fid)"), ("Walk", "Get", ""), ("Walk", "Put", "id"),
-    ("WalkGetAttr", "Get", ""), ("WalkGetAttr", "Put", "id"), ("xattrWalkRead", "Get", ""), ("xattrWalkRead", "Put", "id")]
+  Gen.fidPutSites.all (fun s =>
+    let what := s.2.1; let guard := s.2.2.1; let reqs := s.2.2.2
+    (what == "fresh" && guard == "send-failed" && !reqs.isEmpty &&
+      reqs.all (["tattach", "twalk", "twalkgetattr", "txattrwalk"].contains ·)) ||
+    (what == "own" && guard == "send-succeeded" && !reqs.isEmpty && reqs.all (["tclunk", "tremove"].contains ·))) &&
+  (Gen.fidPoolOps.filter (·.2.1 == "Get")).length == (Gen.fidPutSites.filter (·.2.1 == "fresh")).length &&
+  (Gen.fidPoolOps.filter (·.2.1 == "Put")).length == Gen.fidPutSites.length &&
+  Gen.fidPutSites.any (·.2.1 == "own")
 end P9.Client
